@@ -174,7 +174,11 @@ CmpC03(ev) ==
 (* with pos = -2 is a pypi pre-/dev-release against a range naming none: excluded; *)
 (* the lone star contains everything.                                             *)
 VersC04(ev) ==
-  LET want(pr) == IF ev.tag = "star" THEN TRUE ELSE IF pr.pos = -2 THEN FALSE ELSE VDen(ev.cs, pr.pos)
+  LET PreP == {ev.prepos[i] : i \in 1..Len(ev.prepos)}       \* chain positions holding a pypi pre-/dev-release
+      namesPre == \E i \in 1..Len(ev.cs) : ev.cs[i].pos \in PreP
+      want(pr) == IF ev.tag = "star" THEN TRUE
+                  ELSE IF pr.pos = -2 \/ (pr.pos \in PreP /\ ~namesPre) THEN FALSE    \* PEP 440 default: excluded
+                  ELSE VDen(ev.cs, pr.pos)
       bad == {i \in 1..Len(ev.probes) : ev.probes[i].err \/ ev.probes[i].ok # want(ev.probes[i])} IN
   {[prop |-> "C04", scheme |-> ev.scheme, why |-> IF ev.probes[i].err THEN "error" ELSE "contains", text |-> ev.text,
     probe |-> ev.probes[i].text, got |-> ev.probes[i].ok, want |-> want(ev.probes[i]), msg |-> ev.probes[i].msg, known |-> ""]
